@@ -35,6 +35,9 @@ type task struct {
 	running   bool
 	output    interface{}
 	expiresAt time.Time
+
+	// Set by the garbage collection when it removes the task from the limiter.
+	deleted bool
 }
 
 func newTask(input interface{}) *task {
@@ -93,6 +96,14 @@ func (l *Limiter) Run(input interface{}) interface{} {
 func (l *Limiter) getOutput(t *task) interface{} {
 	t.cond.L.Lock()
 
+	if t.deleted {
+		// The task was garbage collected after it was looked up. Running it would
+		// race with the task a later Run creates for the same input, so start over
+		// with whatever task is in the table now.
+		t.cond.L.Unlock()
+		return l.Run(t.input)
+	}
+
 	if !t.expired(l.clk.Now()) {
 		defer t.cond.L.Unlock()
 		return t.output
@@ -131,6 +142,9 @@ func (gc *limiterTaskGC) Run() {
 	for input, t := range gc.limiter.tasks {
 		t.cond.L.Lock()
 		expired := t.expired(gc.limiter.clk.Now()) && !t.running
+		if expired {
+			t.deleted = true
+		}
 		t.cond.L.Unlock()
 		if expired {
 			delete(gc.limiter.tasks, input)
